@@ -4,6 +4,8 @@ import (
 	"bytes"
 	"fmt"
 
+	"github.com/basecomplextech/spec/proto/pmpx"
+
 	"github.com/basecomplextech/baselibrary/async"
 	"github.com/basecomplextech/baselibrary/status"
 	"github.com/basecomplextech/spec/zzverif/vexp"
@@ -317,6 +319,101 @@ func init() {
 			}
 			x.Outcome = fmt.Sprintf("x=%d y=%d yr=%d", len(xs.got), len(ys.got), len(yr.got))
 			w.shutdown()
+		},
+	})
+}
+
+// vParseFrames splits a raw byte stream (after the handshake) into mpx messages, batches flattened.
+func vParseFrames(b []byte) (out []vFrame, err error) {
+	for len(b) > 0 {
+		if len(b) < 4 {
+			return out, fmt.Errorf("trailing %d bytes", len(b))
+		}
+		n := int(b[0])<<24 | int(b[1])<<16 | int(b[2])<<8 | int(b[3])
+		if len(b) < 4+n {
+			return out, fmt.Errorf("truncated frame: need %d have %d", n, len(b)-4)
+		}
+		w := &vWireConn{}
+		m, _, perr := pmpx.ParseMessage(b[4 : 4+n])
+		if perr != nil {
+			return out, perr
+		}
+		w.send(nil, m)
+		out = append(out, w.frames...)
+		b = b[4+n:]
+	}
+	return out, nil
+}
+
+func init() {
+	// N8: two senders on ONE channel (narrow seam): per-sender order, no duplication, open frame first.
+	vexp.Register(&vexp.Scenario{
+		Name: "c03.N8.two-senders-one-channel", Prop: "C03",
+		Bounds: func(thorough bool) vexp.Bounds {
+			if thorough {
+				return vexp.Bounds{P: 3, F: -1, E: 1}
+			}
+			return vexp.Bounds{P: 2, F: -1, E: 1}
+		},
+		Configs: func(thorough bool) []map[string]int {
+			return []map[string]int{{"window": 1 << 20, "writeq": 1 << 20}, {"window": 1 << 20, "writeq": 16}}
+		},
+		Doc: "client conn seam with the real send loop: two threads Send a1,a2 / b1,b2 on the same channel; the bytes on the wire must be: one open frame first, then data frames; every message exactly once; each sender's messages in its call order; a message whose Send returned before another Send started precedes it",
+		Body: func(x *vexp.Ctx) {
+			s := newSeam(x, true, nil)
+			s.startSendLoop()
+			ctx := s.c.ctx
+			ch, st := s.c.Channel(ctx)
+			if !st.OK() {
+				x.Fail("harness: channel", "%v", st)
+				return
+			}
+			done := 0
+			for _, name := range []string{"a", "b"} {
+				name := name
+				vsched.GoNamed("sender-"+name, func() {
+					defer func() { done++ }()
+					for i := 1; i <= 2; i++ {
+						if st := ch.Send(ctx, []byte(fmt.Sprintf("%s%d", name, i))); !st.OK() {
+							x.Fail("Send fails: "+errSig(shortSt(st)), "%v", st)
+						}
+					}
+				})
+			}
+			vsched.Join("senders done", func() bool { return done == 2 })
+			vsched.WaitIdle("send loop drained")
+			frames, err := vParseFrames(s.nc.Drain())
+			if err != nil {
+				x.Fail("wire bytes are not a frame sequence: "+errSig(err.Error()), "%v", err)
+			}
+			var got []string
+			for i, f := range frames {
+				if (i == 0) != (f.Code == pmpx.Code_ChannelOpen) {
+					x.Fail("open frame not first / repeated", "frame %d has code %v", i, f.Code)
+				}
+				m, _ := pmpx.OpenMessageErr(f.raw)
+				switch f.Code {
+				case pmpx.Code_ChannelOpen:
+					got = append(got, string(m.ChannelOpen().Data()))
+				case pmpx.Code_ChannelData:
+					got = append(got, string(m.ChannelData().Data()))
+				}
+			}
+			pos := map[string]int{}
+			for i, g := range got {
+				if _, dup := pos[g]; dup {
+					x.Fail("message duplicated on the wire", "%q twice in %v", g, got)
+				}
+				pos[g] = i
+			}
+			if len(got) != 4 {
+				x.Fail("messages lost or extra on the wire", "wire has %v, want a1,a2,b1,b2 in some interleaving", got)
+			} else if pos["a1"] > pos["a2"] || pos["b1"] > pos["b2"] {
+				x.Fail("a sender's messages are reordered", "wire order %v", got)
+			}
+			x.Outcome = fmt.Sprint(got)
+			ch.Free()
+			s.teardown(x)
 		},
 	})
 }
